@@ -249,3 +249,48 @@ def _register_tempbox():
 
 
 _register_tempbox()
+
+
+# ---------------------------------------------------------------------------
+# leaf / node types for the serialization machine (C09)
+# ---------------------------------------------------------------------------
+import enum as _enum
+
+
+class Color(_enum.Enum):
+  RED = 1
+  GREEN = 'g'
+  BLUE = (3, 4)
+
+
+class Plain:
+  """A dict-based object registered with register_dict_based_object."""
+  _fsim_plain = True
+
+  def __init__(self, **kw):
+    self.__dict__.update(kw)
+
+
+class ConstObj:
+  """An opaque constant registered with register_constant (by identity)."""
+
+  def __repr__(self):
+    return '<ConstObj>'
+
+
+CONST_OBJ = ConstObj()
+
+
+def denied_fn(*a, **k):
+  """A function the restrictive policy refuses."""
+  raise AssertionError('denied_fn must never be called')
+
+
+def _register_serialization():
+  from fiddle._src.experimental import serialization
+  serialization.register_dict_based_object(Plain)
+  serialization.register_constant('fsim.stubmod', 'CONST_OBJ',
+                                  compare_by_identity=True)
+
+
+_register_serialization()
